@@ -143,6 +143,9 @@ type c19world struct {
 	hist         []string
 	uniq    int
 	faulty  bool // a fault mode is armed in this run
+	// read-fault mode: the store whose readFaultAt-th counted read fails (its log names the key)
+	readFaultStore *simstore.Store
+	readFaultAt    int
 }
 
 func (cw *c19world) logf(format string, a ...any) {
@@ -536,14 +539,15 @@ type c19op struct {
 	spell   int
 }
 
-var c19Gaps = []time.Duration{1300 * time.Millisecond, 61*time.Minute + 7*time.Millisecond, 25*time.Hour + 11*time.Millisecond, 8*24*time.Hour + 13*time.Millisecond}
-var c19TTLs = []int{0, 90, 7200, 30 * 3600}
+// the last gap / ttl let a mapping outlive any lifetime some auxiliary key (index, list, counter) may have been given
+var c19Gaps = []time.Duration{1300 * time.Millisecond, 61*time.Minute + 7*time.Millisecond, 25*time.Hour + 11*time.Millisecond, 8*24*time.Hour + 13*time.Millisecond, 33*24*time.Hour + 19*time.Millisecond}
+var c19TTLs = []int{0, 90, 7200, 30 * 3600, 90 * 24 * 3600}
 
 func init() {
 	Register(&Scenario{
 		ID:    "C19",
 		Level: "exploration",
-		Rule: "each run draws a storage stack (hybrid storage exactly as app/server/storage.go builds it: memory-only, memory+persistent tier, redis as cache+shared cache, node-local memory + shared redis + shared persistent tier; or a raw shared memory/redis backend), 1-2 nodes, 2-4 actor tasks acting for 2-4 client identities (two actors may be the same client on different nodes), 1-2 names, 1-3 phases separated by a clock jump drawn from {1.3s, 61min, 25h, 8d} (never on an expiry instant), per actor and phase 1-4 operations drawn from create (ttl in {server default, 90s, 2h, 30h}, optionally a case-variant spelling of the subdomain), delete (own latest / someone else's / own already deleted id), lookup (13 Host spellings: bare, ports, upper/mixed case, trailing dot, IPv6 literals, empty, only-port, two ports), deactivate, list, cleanup-expired and, in legacy runs, management-style creation/deletion of a legacy HTTP port mapping; optionally one fault: the k-th http_domain write on one node's store fails, or (two nodes on a shared backend) the node crashes right before its k-th write. After every phase each node resolves every name once more (quiescent sweep). " +
+		Rule: "each run draws a storage stack (hybrid storage exactly as app/server/storage.go builds it: memory-only, memory+persistent tier, redis as cache+shared cache, node-local memory + shared redis + shared persistent tier; or a raw shared memory/redis backend), 1-2 nodes, 2-4 actor tasks acting for 2-4 client identities (two actors may be the same client on different nodes), 1-2 names, 1-3 phases separated by a clock jump drawn from {1.3s, 61min, 25h, 8d, 33d} (never on an expiry instant), per actor and phase 1-4 operations drawn from create (ttl in {server default, 90s, 2h, 30h, 90d}, optionally a case-variant spelling of the subdomain), delete (own latest / someone else's / own already deleted id), lookup (13 Host spellings: bare, ports, upper/mixed case, trailing dot, IPv6 literals, empty, only-port, two ports), deactivate, list, cleanup-expired and, in legacy runs, management-style creation/deletion of a legacy HTTP port mapping; optionally one fault: the k-th http_domain write on one node's store fails, or the k-th http_domain read fails, or (two nodes on a shared backend) the node crashes right before its k-th write. After every phase each node resolves every name once more (quiescent sweep). " +
 			"All operations are interleaved at statement granularity inside the anchored files. A run is non-trivial when two operations of different actors on one name overlapped in time, or a name changed hands (a create succeeded after a successful delete), or a lookup ran against a name whose mapping had been deleted/deactivated/expired, or a fault fired; distinct = distinct schedule hash among those.",
 		Real: []string{"internal/cloud/repos HTTPDomainMappingRepository (create/delete/update/lookup/cleanup)", "internal/app/server HTTPDomainRepositoryAdapter", "internal/command HTTPDomainCreate/Delete/List handlers", "internal/httpservice DomainRegistry", "internal/httpservice/modules/domainproxy lookupMapping + extractDomain (via export overlay)", "internal/cloud/repos PortMappingRepo.GetPortMappingByDomain/CreatePortMapping/DeletePortMapping (third lookup source)", "internal/core/storage/hybrid with the default prefix configuration", "internal/core/storage/memory and redis backends (redis over miniredis in the bubble)"},
 		Stub: []string{"CloudControlAPI: only GetPortMappingByDomain, delegating to the real PortMappingRepo on the node's storage", "management API create/delete of a legacy HTTP port mapping: the three effects of handlers_mapping.go (registry availability check, repo create, registry register / repo delete, registry unregister) are performed by the harness", "persistent tier: simstore.Persist map", "transport and session layer: handlers are invoked directly with an authenticated CommandContext"},
@@ -616,7 +620,8 @@ func c19Run(w *simrt.World, tier string) {
 		}
 	}
 	// fault
-	faultMode := c.Intn(4, "fault.mode") // 0 none, 1 none, 2 fail one write, 3 crash
+	faultMode := c.Intn(5, "fault.mode") // 0 none, 1 none, 2 fail one write, 3 crash, 4 fail one read
+	faultKRead := 1 + c.Intn(60, "fault.k.read")
 	faultNode := c.Intn(nnodes, "fault.node")
 	faultStore := c.Intn(2, "fault.store")
 	faultK := 1 + c.Intn(16, "fault.k")
@@ -638,6 +643,18 @@ func c19Run(w *simrt.World, tier string) {
 			s.Filter, s.CountWritesOnly, s.FailAt = isHTTPDomain, true, faultK
 			faultDesc = fmt.Sprintf("%s write #%d fails", s.Name, faultK)
 		}
+	case 4:
+		// one read of an http_domain key fails (timeout / connection reset of the cache tier)
+		cw.faulty = true
+		n := cw.nodes[faultNode]
+		st := n.stores[faultStore%len(n.stores)]
+		st.Filter = func(op, key string) bool {
+			return isHTTPDomain(op, key) && (op == "Get" || op == "Exists" || op == "GetList")
+		}
+		st.FailAt = faultKRead
+		st.KeepLog = true
+		cw.readFaultStore, cw.readFaultAt = st, faultKRead
+		faultDesc = fmt.Sprintf("%s read #%d fails", st.Name, faultKRead)
 	case 3:
 		shared := cw.mode == "raw-memory" || cw.mode == "raw-redis" || cw.mode == "hybrid-redis"
 		// (legacy runs included: simrt recognises a simulated crash that x/sync/singleflight re-panics
@@ -831,6 +848,30 @@ func (cw *c19world) releasedPossibly(x *c19create, stamp int64) bool {
 	return false
 }
 
+// failedRead names the kind of key whose read was failed by the injected read fault ("" if none fired):
+// part of the class of a violation that depends on which answer was lost.
+func (cw *c19world) failedRead() string {
+	if cw.readFaultStore == nil {
+		return ""
+	}
+	for _, o := range cw.readFaultStore.Log {
+		if o.N == cw.readFaultAt {
+			kind := "other-key-read-failed"
+			switch {
+			case strings.HasPrefix(o.Key, repos.KeyPrefixHTTPDomainIndex):
+				kind = "index-read-failed"
+			case strings.HasPrefix(o.Key, repos.KeyPrefixHTTPDomainMapping):
+				kind = "record-read-failed"
+			}
+			if cw.mode == "hybrid-mem" || cw.mode == "hybrid-redis" {
+				kind += ":cache-only-hybrid"
+			}
+			return kind
+		}
+	}
+	return ""
+}
+
 // deleteActivity: some delete (by anyone, whatever its outcome) of an id handed out for this name, or a
 // cleanup of expired mappings, was invoked before stamp.
 func (cw *c19world) deleteActivity(name string, stamp int64) bool {
@@ -911,7 +952,7 @@ func (cw *c19world) judge(nnames int) {
 	// mapping id every consequence is filed under that root cause (one class per oracle).
 	sig := func(oracle, kind, detail string) string {
 		// (legacy-source and case-variant classes have a cause of their own and keep their class)
-		independent := strings.Contains(detail, "legacy") || strings.Contains(detail, "case-variant")
+		independent := strings.Contains(detail, "legacy") || strings.Contains(detail, "case-variant") || strings.Contains(detail, "one-registry")
 		// reusing an id overwrites a record but never frees a name's index, so it cannot explain a lost claim either
 		if reused && !independent && !strings.HasPrefix(detail, "claim-lost") {
 			return "C19:" + oracle + ":" + kind + ":reused-mapping-ids"
@@ -1017,6 +1058,10 @@ overlapScan:
 					class = "claim-lost-without-any-delete"
 				}
 				switch {
+				case x.legacy && y.legacy && x.node == y.node:
+					// (registries are node-local: two legacy owners admitted by two nodes are the known
+					// legacy-twice class, but one node's registry must never admit a second owner)
+					class = "one-registry-admitted-two-owners"
 				case x.legacy && y.legacy:
 					class = "legacy-twice"
 				case x.legacy:
@@ -1104,6 +1149,38 @@ overlapScan:
 		}
 		if okc {
 			w.Probe("lookup.routed-to-owner")
+			// agreement of the lookup sources: the answer came from a legacy source although an earlier
+			// claimant of the name, a repository mapping of someone else, was live throughout: it had been
+			// created before this lookup and the very same mapping is routed again by a later lookup.
+			// (The legacy mapping is the later claimant: admitting it is the known two-owners defect, but
+			// requests must still never reach it while the rightful owner's mapping is there.)
+			if src != "" {
+				first := cands[0]
+				for _, x := range cands {
+					if x.call < first.call {
+						first = x
+					}
+				}
+				for _, x := range byName[name] {
+					if x.legacy || !x.ok || x.ret >= first.call || x.ret >= l.call || (x.client == l.client && x.thost == l.thost && x.tport == l.tport) {
+						continue
+					}
+					for _, l2 := range cw.lookups {
+						if l2.done && l2.found && l2.call > l.ret && l2.client == x.client && l2.thost == x.thost && l2.tport == x.tport {
+							if nm2, ok2 := c19norm(l2.host); ok2 && nm2 == name {
+								sg := sig("sources", "later-legacy-claimant-answered-while-repository-owner-live", "")
+								if fr := cw.failedRead(); fr != "" && !reused {
+									// which read was lost decides which layer turned an error into "unknown name"
+									sg = "C19:sources:later-legacy-claimant-answered-while-repository-owner-live:" + fr
+								}
+								w.Violationf(sg,
+									"node %d routed Host %q (name %s) to the legacy mapping %s of client %d although the repository mapping %s of client %d owned the name first, existed before the lookup and is routed again afterwards (node %d, Host %q)\n%s",
+									l.node+1, l.host, name, l.id, l.client, x.id, x.client, l2.node+1, l2.host, tail)
+							}
+						}
+					}
+				}
+			}
 			continue
 		}
 		w.Violationf(sig("route", reason, src), "node %d routed Host %q (name %s) to client %d %s:%d (mapping %s) although that mapping was %s before the lookup started\n%s",
